@@ -28,11 +28,22 @@ def scratch() -> str:
         if base is None:
             base = os.path.join(VERIF_ROOT, "scratch")
             os.makedirs(base, exist_ok=True)
+        _remove_stale(base)
         _scratch = os.path.join(base, f"verif-{os.getpid()}")
         os.makedirs(_scratch, exist_ok=True)
         _scratch_owner_pid = os.getpid()
         atexit.register(_cleanup)
     return _scratch
+
+
+def _remove_stale(base: str) -> None:
+    """Scratch directories of launchers that no longer exist (killed by a time limit)."""
+    try:
+        for name in os.listdir(base):
+            if name.startswith("verif-") and name[6:].isdigit() and not os.path.exists(f"/proc/{name[6:]}"):
+                shutil.rmtree(os.path.join(base, name), ignore_errors=True)
+    except OSError:
+        pass
 
 
 def _cleanup() -> None:
